@@ -8,7 +8,8 @@ META = {
                    'myth_uncond_wait_cb (all TUs), i.e. after the waiter\'s context was saved; myth_uncond_wait_body hands '
                    '(u, current thread) to that callback and saves that thread\'s context; myth_uncond_signal_body spins on a '
                    'volatile load of u->th until non-null, then clears the slot, then pushes exactly that thread on its own '
-                   'run queue exactly once and cannot return before the push.',
+                   'run queue exactly once and cannot return before the push.'
+                   ' The initialiser writes every field the operations read (C08.4).',
     'not_decided': 'exactly-once resumption over repeated rendezvous under every interleaving',
     'assumptions': ['one waiter and one signaler per rendezvous (documented protocol)'],
 }
